@@ -144,7 +144,10 @@ private:
     size_t i = bitPos / WLS;
     size_t j = bitPos % WLS;
 
-    size_t mask = ~(~((size_t)0) << bitsField) << j;
+    // A shift by the full word width is undefined: a 64-bit field covers the
+    // whole word.
+    size_t mask =
+        (bitsField >= WLS ? ~((size_t)0) : ~(~((size_t)0) << bitsField)) << j;
     data[i] = (data[i] & ~mask) | (value << j);
 
     if (j + bitsField > WLS) {
